@@ -106,6 +106,16 @@ impl Channel {
         })
     }
 
+    /// The message of the last `send` was handed back to the sender (the
+    /// receiver is gone): it is not in the channel.
+    pub(crate) fn undo_send(&self) {
+        super::execution(|execution| {
+            let state = self.state.get_mut(&mut execution.objects);
+            state.msg_cnt -= 1;
+            state.receiver_synchronize.pop_back();
+        })
+    }
+
     /// Returns `true` if a message was taken from the channel.
     pub(crate) fn try_recv(&self, location: Location) -> bool {
         self.state.branch_action(Action::MsgTryRecv, location);
